@@ -124,6 +124,10 @@ where
                     Ok(ast::InlineExpression::NumberLiteral { value: num })
                 }
             }
+            Some(b'-') if only_literal => {
+                let num = self.get_number_literal()?;
+                Ok(ast::InlineExpression::NumberLiteral { value: num })
+            }
             Some(b'$') if !only_literal => {
                 self.ptr += 1; // $
                 let id = self.get_identifier()?;
